@@ -547,12 +547,13 @@ func (rn *runner) runRouterCase(c *Case) {
 	if rn.pool == nil {
 		rn.pool = &Pool{}
 	}
+	cfgLogged := cfgJSON(&c.Cfg) // what was CONFIGURED is logged before the library gets its hands on the slices
 	in, res := newRinst(&c.Cfg)
 	var mir *rinst
 	if c.Mirror {
 		mir, _ = newRinst(&c.Cfg)
 	}
-	rn.emit(obj("ev", js("reset"), "fam", js("router"), "cfg", cfgJSON(&c.Cfg), "res", js(res), "mirror", jbool(c.Mirror), "id", js(c.ID)))
+	rn.emit(obj("ev", js("reset"), "fam", js("router"), "cfg", cfgLogged, "res", js(res), "mirror", jbool(c.Mirror), "id", js(c.ID)))
 	if res != "ok" {
 		return
 	}
